@@ -11,6 +11,7 @@ delivered to an early listener vs. frames wholly sent.
 """
 import json
 import threading
+import zlib
 
 from ..probes import client as pc
 from ..server import mcserver, scripts
@@ -212,9 +213,14 @@ def one_case(run, scenario, pv, default_pv, k, abrupt, rng_bytes, hook_log):
             orig_init = C.StatusReactor.__init__
 
             def slow_init(self, *a, **k):
-                import time
-                time.sleep(0.03)
+                # (under its lock status() cannot be overtaken, so the wait
+                # runs to its end; a networking thread that *can* run in the
+                # meantime ends it early by finishing)
+                pc.wait_for(lambda: all(not t.is_alive()
+                                        for t in pc.threads_of(conn)),
+                            0.4 if k_cut <= 0 else 0.03)
                 return orig_init(self, *a, **k)
+            k_cut = k
             C.StatusReactor.__init__ = slow_init
             try:
                 conn.status(handle_status=rec.statuses.append,
@@ -572,7 +578,11 @@ def run(run):
                     modes = (False, True) if (
                         thorough or k in bounds or k % 9 == 0) else (False,)
                     for abrupt in modes:
-                        n += 1
+                        # (the shard of a case must not depend on a running
+                        # count: stream lengths measured by the dry runs may
+                        # differ by a byte or two between processes)
+                        n = zlib.crc32(repr((scenario, pv, k,
+                                             abrupt)).encode())
                         if not run.mine(n):
                             continue
                         res = None
